@@ -239,7 +239,7 @@ def _run_unit(args):
         return idx, None, traceback.format_exc()
 
 
-def run_units(work_fn, units, tier, jobs=None, progress=None):
+def run_units(work_fn, units, tier, jobs=None, progress=None, fresh_process_per_unit=False):
     """Run work_fn(unit, tier) -> Result over all units on a fork pool; merge in unit order independent way."""
     global _WORK_FN
     _WORK_FN = work_fn
@@ -250,12 +250,12 @@ def run_units(work_fn, units, tier, jobs=None, progress=None):
     if n == 0:
         return total
     tasks = [(i, u, tier) for i, u in enumerate(units)]
-    if jobs <= 1 or n == 1:
+    if (jobs <= 1 or n == 1) and not fresh_process_per_unit:
         it = map(_run_unit, tasks)
         pool = None
     else:
         ctx = multiprocessing.get_context('fork')
-        pool = ctx.Pool(min(jobs, n))
+        pool = ctx.Pool(max(1, min(jobs, n)), maxtasksperchild=1 if fresh_process_per_unit else None)
         it = pool.imap_unordered(_run_unit, tasks, chunksize=1)
     done = 0
     try:
